@@ -401,6 +401,12 @@ def purity_case(case, bump, viol, keys):
             n_required = res[1] if res[0] == "ok" else -1
         else:
             res = ed.guarded(lambda: len(list(proc.get_nodes(path, mustexist=False))))
+            if res[0] not in ("ok", "timeout") and not exact:
+                # the optional query tried to create the rest of the path under a match of a search / wildcard that
+                # lacks it and was refused there (after creating under earlier matches): every branch does not
+                # exist, so this is not "a path that already exists"
+                bump("purity:optional-creates-in-unmatched-branch-not-judged")
+                continue
             if res[0] == "ok" and res[1] != n_required and not exact:
                 # the path exists under some matches of a search/wildcard and is created under others:
                 # not "a path that already exists"
